@@ -326,7 +326,7 @@ pub fn run(r: &Report) {
          (version, lock time; per input txid, vout, pegin flag, script_sig, sequence, issuance nonce/entropy/amount/keys/add/remove, \
          4 witness fields set/changed/cleared; per output asset, value, nonce, script, 2 witness fields), each classified by the \
          reference encoder as witness-only / non-witness / neutral; every header of the generator (27 legacy + 75 dynafed) x every \
-         single-field modification incl. each field of current/proposed params; clear_witness twice. non-trivial = distinct encodings",
+         single-field modification incl. each field of current/proposed params; clear_witness twice; all headers and a transaction subset again on one thread, forwards and backwards. non-trivial = distinct encodings",
     );
     let txs = crate::props::c12::all_txs(r);
     // the big-vector transactions make the modification loop quadratic; keep ids-only for those
@@ -370,6 +370,22 @@ pub fn run(r: &Report) {
     let hs = gen::headers();
     r.set_extra("headers", json!(hs.len()));
     hs.par_iter().for_each(|h| check_header(r, h));
+    // histories on ONE thread (the ids are pure functions of the value; a memo keyed by data that does not determine the
+    // serialization would make an id depend on the calls before it): all headers and the small transactions once more,
+    // forwards and backwards; check_header / check_tx themselves evaluate base, modification, base back to back
+    {
+        let mut n_hist = 0u64;
+        for h in hs.iter().chain(hs.iter().rev()) {
+            check_header(r, h);
+            n_hist += 1;
+        }
+        let seq: Vec<&RTx> = small.iter().filter(|t| t.enc_full().len() <= 1500).step_by(r.tier.pick(5, 1)).collect();
+        for t in seq.iter().chain(seq.iter().rev()) {
+            check_tx_ids_only(r, t);
+            n_hist += 1;
+        }
+        r.set_extra("sequential_history_cases", json!(n_hist));
+    }
     r.sample(json!({"example_modification_classes": ["in0.sequence:non-witness", "in0.wit.script_witness.push:witness-only", "header.solution:witness-only", "header.current.elided_root:non-witness"]}));
     r.assume("256-bit payloads from fixed menus; SHA-256 treated as collision-free when concluding that different serializations give different ids");
     r.assume("reference serialization = Elements wire format as implemented independently in oracle/model.rs (validated byte-for-byte against the library on all generated values in C01 and on the repository's Elements-generated transaction file)");
